@@ -109,6 +109,9 @@ func loadProg(dir, goarch string, needDeps bool) (*Prog, error) {
 	}
 	sort.Slice(p.Pkgs, func(i, j int) bool { return p.Pkgs[i].PkgPath < p.Pkgs[j].PkgPath })
 	p.AllPkgs = pkgs
+	computeTypeAliases(p.Pkgs)
+	computeAliases(p.Pkgs)
+	computeFieldAliases(p.Pkgs)
 	for _, pk := range p.Pkgs {
 		for _, f := range pk.Syntax {
 			p.indexFile(pk, f)
@@ -217,14 +220,14 @@ func funcName(f *types.Func) string {
 		}
 		name := "?"
 		if nt, ok := t.(*types.Named); ok {
-			name = nt.Obj().Name()
+			name = canonId(nt.Obj().Name())
 		}
 		if ptr {
-			return fmt.Sprintf("%s.(*%s).%s", pkg, name, f.Name())
+			return fmt.Sprintf("%s.(*%s).%s", pkg, name, fname(f))
 		}
-		return fmt.Sprintf("%s.%s.%s", pkg, name, f.Name())
+		return fmt.Sprintf("%s.%s.%s", pkg, name, fname(f))
 	}
-	return pkg + "." + f.Name()
+	return pkg + "." + fname(f)
 }
 
 func (p *Prog) Parent(n ast.Node) ast.Node { return p.parents[n] }
@@ -913,7 +916,7 @@ func writePath(info *types.Info, e ast.Expr, sb *strings.Builder) bool {
 		if !writePath(info, e.X, sb) {
 			return false
 		}
-		sb.WriteString("." + e.Sel.Name)
+		sb.WriteString("." + canonId(e.Sel.Name))
 		return true
 	case *ast.StarExpr:
 		return writePath(info, e.X, sb)
@@ -1008,7 +1011,40 @@ func pathObjects(info *types.Info, e ast.Expr) []types.Object {
 	return out
 }
 
-func exprStr(e ast.Expr) string { return types.ExprString(e) }
+func exprStr(e ast.Expr) string {
+	s := types.ExprString(e)
+	for nw, old := range renameText {
+		if strings.Contains(s, nw) {
+			s = replaceWord(s, nw, old)
+		}
+	}
+	return s
+}
+
+// replaceWord replaces whole-identifier occurrences of a by b.
+func replaceWord(s, a, b string) string {
+	var sb strings.Builder
+	for i := 0; i < len(s); {
+		j := strings.Index(s[i:], a)
+		if j < 0 {
+			sb.WriteString(s[i:])
+			break
+		}
+		j += i
+		end := j + len(a)
+		isId := func(c byte) bool {
+			return c == '_' || c >= '0' && c <= '9' || c >= 'a' && c <= 'z' || c >= 'A' && c <= 'Z'
+		}
+		if (j > 0 && isId(s[j-1])) || (end < len(s) && isId(s[end])) {
+			sb.WriteString(s[i:end])
+		} else {
+			sb.WriteString(s[i:j])
+			sb.WriteString(b)
+		}
+		i = end
+	}
+	return sb.String()
+}
 
 func namedOf(t types.Type) *types.Named {
 	for {
@@ -1032,7 +1068,7 @@ func typeIs(t types.Type, pkgSuffix, name string) bool {
 	if n == nil || n.Obj().Pkg() == nil {
 		return false
 	}
-	return n.Obj().Name() == name && strings.HasSuffix(n.Obj().Pkg().Path(), pkgSuffix)
+	return canonId(n.Obj().Name()) == name && strings.HasSuffix(n.Obj().Pkg().Path(), pkgSuffix)
 }
 
 func isModuleType(t types.Type) bool {
